@@ -49,3 +49,136 @@ Definition ids_dense (tbl : list (N * list str)) : bool :=
   forallb (fun i => existsb (fun e => fst e =? N.of_nat i) tbl) (seq 0 n).
 Definition id0_ok (tbl : list (N * list str)) : bool :=
   forallb (fun e => negb (fst e =? 0) || match snd e with f :: _ => str_eqb f BOSEOS | [] => true end) tbl.
+
+(** ** [generate_bigram_info] itself, on parsed inputs *)
+Fixpoint is_prefix_str (p s : str) : bool :=
+  match p, s with
+  | [], _ => true
+  | x :: p', y :: s' => (x =? y) && is_prefix_str p' s'
+  | _ :: _, [] => false
+  end.
+(** [str::replace("BOS/EOS", "")]: leftmost non-overlapping occurrences *)
+Fixpoint drop_boseos (fuel : nat) (s : str) : str :=
+  match fuel with
+  | O => s
+  | S f => match s with
+           | [] => []
+           | c :: t => if is_prefix_str BOSEOS s then drop_boseos f (skipn 7 s) else c :: drop_boseos f t
+           end
+  end.
+(** [split('/')]: the first piece and what follows the first '/' *)
+Fixpoint split_slash (s : str) : str * option str :=
+  match s with
+  | [] => ([], None)
+  | c :: t => if c =? 47 then ([], Some t) else let '(a, r) := split_slash t in (c :: a, r)
+  end.
+Definition two_pieces (s : str) : option (str * str) :=
+  match split_slash s with
+  | (a, Some rest) => Some (a, fst (split_slash rest))
+  | (_, None) => None
+  end.
+
+Definition idmap := list (N * list (option N)).      (* HashMap<usize, Vec<Option<id>>> as an insertion log: the last entry of a key counts *)
+Definition lookup_id (mp : idmap) (id : N) : option (list (option N)) :=
+  option_map snd (find (fun e => fst e =? id) (rev mp)).
+Definition num_keys (mp : idmap) : nat := length (nodup N.eq_dec (map fst mp)).
+
+(** reading right-id.def / left-id.def: feature ids of every line, interned in line order *)
+Fixpoint read_defs (templates : list (list tpiece)) (defs : list (N * list str)) (mp : idmap) (tbl : list str)
+  : result (idmap * list str) :=
+  match defs with
+  | [] => Ok (mp, tbl)
+  | (id, feats) :: rest =>
+      if (id =? 0) && match feats with f :: _ => negb (str_eqb f BOSEOS) | [] => false end then Err
+      else let '(ids, tbl') := extract_ids templates feats 0 tbl in
+           read_defs templates rest (mp ++ [(id, ids)]) tbl'
+  end.
+
+Definition feat_name (tbl : list str) (s : str) : option str :=
+  match s with
+  | [] => Some []
+  | _ => option_map (fun i => show_N (N.succ i)) (index_of_str s tbl 0)
+  end.
+
+(** one model.def line -> at most one bigram.cost line *)
+Definition cost_line (tblL tblR : list str) (factor : Z) (ln : Z * N * str) : option (str * str * Z) :=
+  let '(num, e, txt) := ln in
+  let c := line_cost num e factor in
+  if (c =? 0)%Z then None
+  else match two_pieces (drop_boseos (length txt) txt) with
+       | None => None
+       | Some (L, R) =>
+           match feat_name tblL L, feat_name tblR R with
+           | Some a, Some b => Some (a, b, c)
+           | _, _ => None
+           end
+       end.
+
+Fixpoint filter_map {A B} (f : A -> option B) (l : list A) : list B :=
+  match l with [] => [] | x :: t => match f x with Some y => y :: filter_map f t | None => filter_map f t end end.
+
+Definition render_ids (ids : list (option N)) : list str :=
+  map (fun o => match o with Some i => show_N i | None => STAR end) ids.
+
+Fixpoint all_ok {A} (l : list (result A)) : result (list A) :=
+  match l with
+  | [] => Ok []
+  | Ok x :: t => match all_ok t with Ok r => Ok (x :: r) | Err => Err | Panic => Panic end
+  | Err :: _ => Err
+  | Panic :: _ => Panic
+  end.
+
+(** rows of ids 1 .. n-1 (n = number of defined ids; id 0 must be among them) *)
+Definition rows_of (mp : idmap) : result (list (list str)) :=
+  match mp with
+  | [] => Ok []
+  | _ =>
+      match lookup_id mp 0 with
+      | None => Err
+      | Some _ =>
+          all_ok (map (fun i => match lookup_id mp (N.of_nat i) with Some ids => Ok (render_ids ids) | None => Err end)
+                      (seq 1 (num_keys mp - 1)))
+      end
+  end.
+
+Definition gen (m : mecab_in) : result (list (list str) * list (list str) * list (str * str * Z)) :=
+  match read_defs (ltemplates m) (mi_rightdef m) [] [] with
+  | Ok (mpR, tblL) =>
+      match read_defs (rtemplates m) (mi_leftdef m) [] [] with
+      | Ok (mpL, tblR) =>
+          match rows_of mpR, rows_of mpL with
+          | Ok rrows, Ok lrows => Ok (rrows, lrows, filter_map (cost_line tblL tblR (mi_factor m)) (mi_model m))
+          | _, _ => Err
+          end
+      | _ => Err
+      end
+  | _ => Err
+  end.
+
+(** ** the hypotheses of the end-to-end theorem, as a computable predicate
+    (a) a model line that yields a two-sided cost entry is the plain text  left '/' right;
+    (b) one line per feature text;
+    (c) the expansions of the templates on the rows of the non-zero ids are non-empty, free of '/',
+        and  a '/' c  holds no occurrence of BOS/EOS. *)
+Definition has_slash (s : str) : bool := existsb (fun c => c =? 47) s.
+Definition line_plain (txt : str) : bool :=
+  match two_pieces (drop_boseos (length txt) txt) with
+  | Some (L, R) => match L, R with [], _ => true | _, [] => true | _, _ => str_eqb txt (L ++ [ch_slash] ++ R) end
+  | None => true
+  end.
+Fixpoint nodup_strs (l : list str) : bool :=
+  match l with [] => true | x :: t => negb (existsb (str_eqb x) t) && nodup_strs t end.
+Definition exp_ok (a c : str) : bool :=
+  negb (has_slash a) && negb (has_slash c)
+  && match a with [] => false | _ => true end && match c with [] => false | _ => true end
+  && str_eqb (drop_boseos (length (a ++ [ch_slash] ++ c)) (a ++ [ch_slash] ++ c)) (a ++ [ch_slash] ++ c).
+Definition wf_model (m : mecab_in) : bool :=
+  forallb (fun ln => line_plain (snd ln)) (mi_model m)
+  && nodup_strs (map snd (mi_model m))
+  && forallb (fun b =>
+       forallb (fun er => (fst er =? 0)%N ||
+         forallb (fun el => (fst el =? 0)%N ||
+           match expand (parse_template 76 (fst b)) (snd er) 0, expand (parse_template 82 (snd b)) (snd el) 0 with
+           | Some a, Some c => exp_ok a c
+           | _, _ => true
+           end) (mi_leftdef m)) (mi_rightdef m)) (mi_bigrams m).
